@@ -43,7 +43,7 @@ package ratelimit
 //@   ensures admitted_debits: result1 == nil && result0 == 0 ==> tb.lastConsumed == tokens && tb.availableTokens == refillOf(tb, kdiv(lastclock - old(tb.lastRefresh), old(tb.timePerToken))) - tokens && tb.lastRefresh == ite(kdiv(lastclock - old(tb.lastRefresh), old(tb.timePerToken)) == 0, old(tb.lastRefresh), lastclock)
 //@   ensures refused_costs_nothing: !(result1 == nil && result0 == 0) ==> tb.lastConsumed == 0 && refreshed(tb, kdiv(lastclock - old(tb.lastRefresh), old(tb.timePerToken)))
 //@   ensures delay_is_missing_tokens: result1 == nil && tokens <= tb.burst && tb.availableTokens < tokens && tb.lastConsumed == 0 ==> result0 == (tokens - tb.availableTokens) * tb.timePerToken && result0 > 0
-//@   ensures error_only_when_too_big: result1 != nil ==> tokens > tb.burst
+//@   ensures error_only_when_too_big: result1 != nil ==> tokens > tb.burst && !istype(result1, "*MaxRateError")
 
 //@ func (*tokenBucket).rollback
 //@   props C03 C13
@@ -91,6 +91,8 @@ package ratelimit
 //@   ensures refused_debits_none: !(result1 == nil && result0 <= 0) ==> (forall k int :: in(k, tbs.buckets) ==> onlyRefreshed(tbs.buckets[k]))
 //@   ensures refused_has_reason: !(result1 == nil && result0 <= 0) ==> (exists k int :: in(k, tbs.buckets) && !admits(tbs.buckets[k], tokens))
 //@   ensures error_means_too_big: result1 != nil ==> (exists k int :: in(k, tbs.buckets) && tokens > old(tbs.buckets[k].burst))
+//@   ensures error_is_plain: result1 != nil ==> !istype(result1, "*MaxRateError")
+//@   ensures too_big_is_error: (exists k int :: in(k, tbs.buckets) && tokens > old(tbs.buckets[k].burst)) ==> result1 != nil
 //@   ensures delay_covers_every_bucket: result1 == nil && result0 > 0 ==> (forall k int :: in(k, tbs.buckets) && tokens <= tbs.buckets[k].burst ==> result0 >= (tokens - tbs.buckets[k].availableTokens) * tbs.buckets[k].timePerToken)
 //@   ensures others_untouched: forall tb *tokenBucket :: old(allocated(tb)) && !owns(tbs, tb) ==> untouched(tb)
 //@   loop 1 invariant forall k int :: visited(k) ==> in(k, tbs.buckets)
@@ -100,8 +102,9 @@ package ratelimit
 //@   loop 1 invariant firstErr == nil && maxDelay <= 0 ==> (forall k int :: visited(k) ==> admits(tbs.buckets[k], tokens))
 //@   loop 1 invariant !(firstErr == nil && maxDelay <= 0) ==> (exists k int :: visited(k) && !admits(tbs.buckets[k], tokens))
 //@   loop 1 invariant firstErr != nil ==> (exists k int :: visited(k) && tokens > old(tbs.buckets[k].burst))
+//@   loop 1 invariant firstErr == nil ==> (forall k int :: visited(k) ==> tokens <= old(tbs.buckets[k].burst))
 //@   loop 1 invariant firstErr == nil ==> (forall k int :: visited(k) && !admits(tbs.buckets[k], tokens) ==> maxDelay >= (tokens - tbs.buckets[k].availableTokens) * tbs.buckets[k].timePerToken)
-//@   loop 1 invariant maxDelay >= -1
+//@   loop 1 invariant maxDelay >= -1 && (firstErr != nil ==> !istype(firstErr, "*MaxRateError"))
 //@   loop 1 invariant forall tb *tokenBucket :: old(allocated(tb)) && !owns(tbs, tb) ==> untouched(tb)
 //@   loop 2 invariant forall k int :: visited(k) ==> in(k, tbs.buckets)
 //@   loop 2 invariant forall k int :: in(k, tbs.buckets) ==> allocated(tbs.buckets[k]) && tbs.buckets[k].period == k && tbs.buckets[k] != nil
@@ -109,6 +112,7 @@ package ratelimit
 //@   loop 2 invariant forall k int :: in(k, tbs.buckets) && !visited(k) ==> (admits(tbs.buckets[k], tokens) && debited(tbs.buckets[k], tokens)) || (!admits(tbs.buckets[k], tokens) && onlyRefreshed(tbs.buckets[k]))
 //@   loop 2 invariant exists k int :: in(k, tbs.buckets) && !admits(tbs.buckets[k], tokens)
 //@   loop 2 invariant firstErr != nil ==> (exists k int :: in(k, tbs.buckets) && tokens > old(tbs.buckets[k].burst))
+//@   loop 2 invariant firstErr == nil ==> (forall k int :: in(k, tbs.buckets) ==> tokens <= old(tbs.buckets[k].burst))
 //@   loop 2 invariant firstErr == nil ==> (forall k int :: in(k, tbs.buckets) && !admits(tbs.buckets[k], tokens) ==> maxDelay >= (tokens - refillOf(tbs.buckets[k], kOf(tbs.buckets[k]))) * old(tbs.buckets[k].timePerToken))
 //@   loop 2 invariant forall tb *tokenBucket :: old(allocated(tb)) && !owns(tbs, tb) ==> untouched(tb)
 
@@ -187,6 +191,7 @@ package ratelimit
 //@   ensures live_entry_reused: old(live(tl.bucketSets, source)) ==> tl.bucketSets.vval[source] == old(tl.bucketSets.vval[source])
 //@   ensures admitted_debits_every_rate: result == nil ==> (forall p int :: in(p, setOf(tl, source).buckets) ==> setOf(tl, source).buckets[p].lastConsumed == amount)
 //@   ensures refused_debits_nothing: result != nil ==> (forall p int :: in(p, setOf(tl, source).buckets) ==> setOf(tl, source).buckets[p].lastConsumed == 0)
+//@   ensures too_big_gets_plain_error: (exists p int :: in(p, setOf(tl, source).buckets) && amount > setOf(tl, source).buckets[p].burst) ==> result != nil && !istype(result, "*MaxRateError")
 //@   ensures too_big_is_plain_error: result != nil && !istype(result, "*MaxRateError") ==> (exists p int :: in(p, setOf(tl, source).buckets) && amount > setOf(tl, source).buckets[p].burst)
 //@   ensures delay_error: calls(Consume) == 1 && callres(Consume, 0, 1) == nil && callres(Consume, 0, 0) > 0 ==> istype(result, "*MaxRateError") && asref(payload(result), "*MaxRateError").Delay == callres(Consume, 0, 0)
 //@   ensures decision_is_the_buckets: (result == nil) <==> (calls(Consume) == 1 && callres(Consume, 0, 1) == nil && callres(Consume, 0, 0) <= 0)
